@@ -173,7 +173,9 @@ def run(ck):
              "calls with intended values; jsonx.Unmarshal into 13 target types against json.Unmarshal of ToJSON's "
              "output, and into nil / non-pointer / nil-pointer targets; documents through the entry points one after "
              "the other and from 8 goroutines; the file-level entry points (ReadFile, ReadFileMaybeJSON, "
-             "ReadSeriesFile) on documents with trailing content. A case is trivial if its input is empty or it was rejected; distinct = distinct "
+             "ReadSeriesFile) on documents with trailing content; objects of 13..40 members with repeated keys (the same "
+             "key bare and quoted), in JSONx and in plain JSON: the emitted JSON must list keys and scalars in source "
+             "order and denote what encoding/json reads. A case is trivial if its input is empty or it was rejected; distinct = distinct "
              "(operation, input bytes).",
         assumptions=["strconv.ParseFloat / json.Marshal(float64) satisfy the shortest-round-trip law",
                      "a Go string that is not valid UTF-8 denotes its U+FFFD-sanitised form"])
